@@ -1,7 +1,7 @@
 ----------------------- MODULE GlobalDelegateContract -----------------------
 (* The C16 statement as a TOTAL monitor over API-observable events:            *)
-(*   Call/Ret of the public API made by the harness (op = Set | Obj | Use |    *)
-(*   Register | Unregister | Collect; kind = mp | tp | prop | eh),             *)
+(*   Call/Ret of the public API made by the harness (op = Set | Get | Obj |    *)
+(*   Use | Register | Unregister | Collect; kind = mp | tp | prop | eh),       *)
 (*   what the installed SDK sees (SdkUse = a measurement / span / inject /     *)
 (*   handled error arrived; SdkCbRegistered / SdkCbUnregistered / SdkCbInvoked),*)
 (*   Timeout (goroutines did not finish; proven = a stop-the-world dump shows   *)
@@ -11,55 +11,109 @@
 (* broken clauses are returned by Step.                                        *)
 EXTENDS Naturals, Sequences, FiniteSets, TLC
 
-Fresh == [setCalled |-> {},      \* kinds for which some Set call has begun
-          setRet |-> {},         \* kinds for which some Set call has returned
-          must |-> {},           \* use ids whose call began after Set returned
-          reached |-> {},        \* use ids seen by the SDK
+(* Documented semantics (trace.go, metric.go, propagation.go, handler.go, internal/global/state.go):       *)
+(*  - Set(x) with a REAL provider x, the first time: every handle obtained from the default (delegating)     *)
+(*    provider before -- and every handle it still hands out later -- forwards to x from then on;            *)
+(*  - later Sets only replace the global for new Get calls; early handles stay with the first provider;      *)
+(*  - Set(Get()) while the default is installed is a no-op (an error is logged, "no delegate will be         *)
+(*    configured"): in particular it must not use up the one-time hand-over.                                 *)
+(* val / via / sdk are "dflt" (the default delegating object) or "r1" / "r2" (the two real SDKs).            *)
+Fresh == [realCalled |-> {},     \* kinds for which a Set with a real provider has begun
+          realRet |-> {},        \* kinds for which a Set with a real provider has returned
+          cand |-> <<>>,         \* kind -> real providers whose Set began before the first real Set returned
+          first |-> <<>>,        \* kind -> the provider early handles were seen forwarding to (pinned once)
+          poss |-> <<>>,         \* kind -> values Get may return now (absent = {"dflt"})
+          setIn |-> <<>>,        \* kind -> Set calls in flight
+          ovl |-> {},            \* Set calls in flight that overlapped another Set of their kind
+          gets |-> <<>>,         \* Get call in flight -> [kind, ok = values it may return]
+          via |-> <<>>,          \* use id / callback -> provider its handle came from
+          must |-> {},           \* use ids that have to reach an SDK
+          reached |-> {},        \* use ids seen by an SDK
           class |-> <<>>,        \* object -> "before" | "during" | "after" (when it was handed out)
-          got |-> <<>>,          \* instrument -> number of measurements the SDK saw
+          got |-> <<>>,          \* sdk/instrument -> number of measurements that SDK saw
           regRet |-> {},         \* callbacks whose RegisterCallback returned without error
           unregCalled |-> {},    \* callbacks for which an Unregister call has begun
           unregRet |-> {},       \* callbacks for which an Unregister call has returned
           inflight |-> <<>>,     \* callback -> Unregister calls in flight
-          nreg |-> <<>>,         \* callback -> registrations with the SDK (ever)
-          active |-> <<>>,       \* callback -> registrations with the SDK minus SDK unregistrations
+          nreg |-> <<>>,         \* callback -> registrations with an SDK (ever, any SDK)
+          active |-> <<>>,       \* callback -> registrations minus SDK unregistrations
           invoked |-> <<>>,      \* callback -> invocations during the final collection
           final |-> FALSE]       \* the final collection is running
 
 Put(f, k, v) == [x \in (DOMAIN f) \cup {k} |-> IF x = k THEN v ELSE f[x]]
 Get(f, k) == IF k \in DOMAIN f THEN f[k] ELSE 0
+GetS(f, k) == IF k \in DOMAIN f THEN f[k] ELSE {}
+GetV(f, k) == IF k \in DOMAIN f THEN f[k] ELSE ""
+Poss(m, k) == IF k \in DOMAIN m.poss THEN m.poss[k] ELSE {"dflt"}
 SeqToSet(s) == {s[i] : i \in 1..Len(s)}
 
-(* callbacks that must be registered with the SDK exactly once by now *)
-Owed(m) == IF "mp" \in m.setRet THEN m.regRet \ m.unregCalled ELSE {}
+(* callbacks that must be registered with an SDK exactly once by now *)
+Owed(m) == IF "mp" \in m.realRet THEN m.regRet \ m.unregCalled ELSE {}
 NotDelegated(m) == {[kind |-> "callback-not-delegated", cb |-> cb] : cb \in {c \in Owed(m) : Get(m.nreg, c) # 1}}
 
+(* something arrived at SDK `sdk` through handle `h` (a use id or a callback) of kind k: a handle of the default
+   provider forwards to the first real provider -- one of the candidates, and always the same one *)
+Arrive(m, k, h, sdk) ==
+  LET v == IF h \in DOMAIN m.via THEN m.via[h] ELSE "dflt"
+      f == GetV(m.first, k) IN
+  IF v # "dflt" THEN <<m, IF sdk # v THEN {[kind |-> "wrong-sdk", sig |-> k, h |-> h, want |-> v, sdk |-> sdk]} ELSE {}>>
+  ELSE IF f = "" THEN (IF sdk \in GetS(m.cand, k) THEN <<[m EXCEPT !.first = Put(@, k, sdk)], {}>>
+                       ELSE <<m, {[kind |-> "delegated-to-unexpected-sdk", sig |-> k, h |-> h, sdk |-> sdk]}>>)
+  ELSE <<m, IF sdk # f THEN {[kind |-> "early-handle-reached-other-sdk", sig |-> k, h |-> h, first |-> f, sdk |-> sdk]}
+            ELSE {}>>
+
 Step(m, e) ==
-  CASE e.ev = "Call" /\ e.op = "Set" -> <<[m EXCEPT !.setCalled = @ \cup {e.kind}], {}>>
+  CASE e.ev = "Call" /\ e.op = "Set" ->
+         LET others == GetS(m.setIn, e.kind)
+             real == e.val # "dflt" IN
+         <<[m EXCEPT !.setIn = Put(@, e.kind, others \cup {e.proc}),
+                     !.ovl = IF others # {} THEN @ \cup others \cup {e.proc} ELSE @,
+                     !.poss = Put(@, e.kind, Poss(m, e.kind) \cup {e.val}),
+                     !.gets = [g \in DOMAIN m.gets |-> IF m.gets[g].kind = e.kind
+                                                         THEN [kind |-> e.kind, ok |-> m.gets[g].ok \cup {e.val}]
+                                                         ELSE m.gets[g]],
+                     !.realCalled = IF real THEN @ \cup {e.kind} ELSE @,
+                     !.cand = IF real /\ e.kind \notin m.realRet THEN Put(@, e.kind, GetS(@, e.kind) \cup {e.val}) ELSE @],
+           {}>>
     [] e.ev = "Ret" /\ e.op = "Set" ->
-         LET n == [m EXCEPT !.setRet = @ \cup {e.kind}] IN <<n, NotDelegated(n)>>
+         LET n == [m EXCEPT !.setIn = Put(@, e.kind, GetS(@, e.kind) \ {e.proc}),
+                            !.ovl = @ \ {e.proc},
+                            !.poss = IF e.proc \in m.ovl THEN @ ELSE Put(@, e.kind, {e.val}),
+                            !.realRet = IF e.val # "dflt" THEN @ \cup {e.kind} ELSE @] IN
+         <<n, NotDelegated(n)>>
+    [] e.ev = "Call" /\ e.op = "Get" ->
+         <<[m EXCEPT !.gets = Put(@, e.kind \o "/" \o e.proc, [kind |-> e.kind, ok |-> Poss(m, e.kind)])], {}>>
+    [] e.ev = "Ret" /\ e.op = "Get" ->
+         LET g == e.kind \o "/" \o e.proc IN
+         <<m, IF g \in DOMAIN m.gets /\ e.val \notin m.gets[g].ok
+              THEN {[kind |-> "get-stale", sig |-> e.kind, val |-> e.val]} ELSE {}>>
     [] e.ev = "Ret" /\ e.op = "Obj" ->
-         <<[m EXCEPT !.class = Put(@, e.obj, IF e.kind \in m.setRet THEN "after"
-                                             ELSE IF e.kind \in m.setCalled THEN "during" ELSE "before")], {}>>
+         <<[m EXCEPT !.class = Put(@, e.obj, IF e.kind \in m.realRet THEN "after"
+                                             ELSE IF e.kind \in m.realCalled THEN "during" ELSE "before")], {}>>
     [] e.ev = "Call" /\ e.op = "Use" ->
-         <<IF e.kind \in m.setRet THEN [m EXCEPT !.must = @ \cup {e.id}] ELSE m, {}>>
+         <<[m EXCEPT !.via = Put(@, e.id, e.via),
+                     !.must = IF e.via # "dflt" \/ e.kind \in m.realRet THEN @ \cup {e.id} ELSE @], {}>>
     [] e.ev = "SdkUse" ->
-         <<[m EXCEPT !.reached = @ \cup {e.id}, !.got = Put(@, e.inst, Get(@, e.inst) + 1)],
-           (IF e.id \in m.reached THEN {[kind |-> "delivered-twice", sig |-> e.kind, id |-> e.id]} ELSE {})
-           \cup (IF e.kind \notin m.setCalled THEN {[kind |-> "delivered-before-install", sig |-> e.kind, id |-> e.id]} ELSE {})>>
+         LET r == Arrive(m, e.kind, e.id, e.sdk) IN
+         <<[r[1] EXCEPT !.reached = @ \cup {e.id}, !.got = Put(@, e.inst, Get(@, e.inst) + 1)],
+           r[2]
+           \cup (IF e.id \in m.reached THEN {[kind |-> "delivered-twice", sig |-> e.kind, id |-> e.id]} ELSE {})
+           \cup (IF e.kind \notin m.realCalled THEN {[kind |-> "delivered-before-install", sig |-> e.kind, id |-> e.id]} ELSE {})>>
     [] e.ev = "Ret" /\ e.op = "Use" ->
          <<m, IF e.id \in m.must /\ e.id \notin m.reached
-              THEN {[kind |-> "lost-after-set", sig |-> e.kind, id |-> e.id, obj |-> e.obj,
+              THEN {[kind |-> "lost-after-set", sig |-> e.kind, id |-> e.id, obj |-> e.obj, via |-> e.via,
                      class |-> IF e.obj \in DOMAIN m.class THEN m.class[e.obj] ELSE "before"]}
               ELSE {}>>
+    [] e.ev = "Call" /\ e.op = "Register" -> <<[m EXCEPT !.via = Put(@, e.cb, e.via)], {}>>
     [] e.ev = "Ret" /\ e.op = "Register" ->
          IF e.err # "" THEN <<m, {[kind |-> "register-error", cb |-> e.cb]}>>
          ELSE LET n == [m EXCEPT !.regRet = @ \cup {e.cb}] IN <<n, NotDelegated(n)>>
     [] e.ev = "SdkCbRegistered" ->
-         <<[m EXCEPT !.nreg = Put(@, e.cb, Get(@, e.cb) + 1), !.active = Put(@, e.cb, Get(@, e.cb) + 1)],
-           (IF Get(m.nreg, e.cb) >= 1 THEN {[kind |-> "callback-registered-twice", cb |-> e.cb]} ELSE {})
-           \cup (IF e.cb \in m.unregRet THEN {[kind |-> "registered-after-unregister", cb |-> e.cb]} ELSE {})
-           \cup (IF e.cb = "?" THEN {[kind |-> "registered-with-undelegated-instrument", cb |-> e.cb]} ELSE {})>>
+         LET r == Arrive(m, "mp", e.cb, e.sdk) IN
+         <<[r[1] EXCEPT !.nreg = Put(@, e.cb, Get(@, e.cb) + 1), !.active = Put(@, e.cb, Get(@, e.cb) + 1)],
+           (IF e.cb = "?" THEN {[kind |-> "registered-with-undelegated-instrument", cb |-> e.cb]} ELSE r[2])
+           \cup (IF Get(m.nreg, e.cb) >= 1 THEN {[kind |-> "callback-registered-twice", cb |-> e.cb]} ELSE {})
+           \cup (IF e.cb \in m.unregRet THEN {[kind |-> "registered-after-unregister", cb |-> e.cb]} ELSE {})>>
     [] e.ev = "SdkCbUnregistered" ->
          <<[m EXCEPT !.active = Put(@, e.cb, IF Get(@, e.cb) > 0 THEN Get(@, e.cb) - 1 ELSE 0)], {}>>
     [] e.ev = "Call" /\ e.op = "Unregister" ->
@@ -82,7 +136,7 @@ Step(m, e) ==
              \cup {[kind |-> "invoked-after-unregister", cb |-> cb] :
                   cb \in {c \in m.unregRet : Get(m.invoked, c) > 0}}
              \cup {[kind |-> "collected-sum-differs", inst |-> r.inst, n |-> r.n, sdk |-> Get(m.got, r.inst)] :
-                  r \in {x \in SeqToSet(e.sums) : x.n >= 0 /\ x.inst \notin m.regRet /\ x.n # Get(m.got, x.inst)}}>>
+                  r \in {x \in SeqToSet(e.sums) : x.n >= 0 /\ x.name \notin m.regRet /\ x.n # Get(m.got, x.inst)}}>>
     [] e.ev = "Timeout" ->
          <<m, IF e.proven THEN {[kind |-> "deadlock", sites |-> e.sites]} ELSE {}>>
     [] e.ev = "Panic" ->
